@@ -420,7 +420,7 @@ def use_repository(backend, key, password, cfg, scratch, rng, tag):
     async def go():
         await repo.unlock(password=password, key=key)
         snap = await repo.snapshot(paths=[src])
-        await repo.restore(path=out, snapshot_regex=snap.name)
+        await repo.restore(path=out, snapshot_regex=f'^{snap.name}$')     # anchored: a 1-byte digest is 2 hex characters
         await repo.close()
     try:
         run_async(go)
@@ -464,7 +464,7 @@ def use_keys_together(backend, keys, pws, cfg, scratch, rng, tag):
     for i, (key, pw) in enumerate(zip(keys, pws)):
         if names[i] is None:
             continue
-        for how, regex in (('unfiltered restore', None), ('restore of its own snapshot', names[i])):
+        for how, regex in (('unfiltered restore', None), ('restore of its own snapshot', f'^{names[i]}$')):
             out = scratch / f'out{tag}_k{i}_{0 if regex is None else 1}'
             repo = Repository(backend, concurrent=2, cache_directory=None)
 
@@ -783,7 +783,7 @@ def shared_cache_probe(rep: Report, ctx):
                 async def go():
                     await repo.unlock(password=pw, key=key)
                     nm = name or (await repo.snapshot(paths=[src])).name
-                    await repo.restore(path=out, snapshot_regex=nm)
+                    await repo.restore(path=out, snapshot_regex=f'^{nm}$')
                     await repo.close()
                     return nm
                 try:
@@ -992,6 +992,86 @@ def key_file_probe(rep: Report, ctx):
                                            'signature': {'kind': 'key_file', 'step': case['step']}, 'replay': case})
                     continue
                 judge(path, out.new_key, be, new_pw, case)
+
+
+# --------------------------------------------------------------------------- add-key chains through the real program
+def cli_chain_probe(rep: Report, ctx):
+    """The same add-key chains produced by real `python -m replicat init / add-key` processes on a local repository (key files
+    with -o, passwords with -p / -n, --shared / --clone with -K of the source holder); afterwards every key is tried with every
+    password by a fresh Repository object: it opens iff the passwords are equal."""
+    import subprocess
+    from concurrent.futures import ThreadPoolExecutor
+    from replicat.backends.local import Local
+    kdf = ['--encryption.kdf.n', '4', '--encryption.kdf.r', '1', '--encryption.kdf.p', '1']
+    env = dict(os.environ, **core.IMPL_ENV)
+    env['HOME'] = str(ctx.scratch)
+    chains = [[('shared', 0)], [('shared', 0), ('shared', 1)], [('ind',), ('shared', 1)], [('clone', 0), ('shared', 1)],
+              [('shared', 0), ('clone', 1)], [('ind',), ('clone', 1), ('shared', 2)], [('shared', 0), ('ind',), ('shared', 0)]]
+
+    def one(ci):
+        ops = chains[ci]
+        d = ctx.scratch / f'clichain{ci}'
+        d.mkdir()
+        keys, pws, log = [d / 'k0'], [b'owner'], []
+
+        def run(argv):
+            p = subprocess.run([core.PY, '-m', 'replicat'] + argv + ['--ignore-config'], env=env, cwd=str(d), capture_output=True, text=True, timeout=300)
+            log.append(argv)
+            return p.returncode, (p.stderr.strip().splitlines() or ['?'])[-1][:160]
+        rc, err = run(['init', '-r', str(d / 'repo'), '-p', 'owner', '-o', str(keys[0])] + kdf)
+        if rc != 0:
+            return ops, log, pws, None, f'init exits with status {rc}: {err}'
+        for i, op in enumerate(ops):
+            new_pw = f'user{i + 1}'.encode()
+            out = d / f'k{i + 1}'
+            if op[0] == 'ind':
+                argv = ['add-key', '-r', str(d / 'repo'), '-n', new_pw.decode(), '-o', str(out)] + kdf
+            else:
+                argv = ['add-key', '--' + op[0], '-r', str(d / 'repo'), '-K', str(keys[op[1]]), '-p', pws[op[1]].decode(), '-o', str(out)] + kdf
+                if op[0] == 'shared':
+                    argv += ['-n', new_pw.decode()]
+            rc, err = run(argv)
+            if rc != 0:
+                return ops, log, pws, None, f'`replicat {" ".join(argv)}` exits with status {rc}: {err}'
+            keys.append(out)
+            pws.append(pws[op[1]] if op[0] == 'clone' else new_pw)
+        return ops, log, pws, (d, keys), None
+
+    def unlock_matrix(d, keys, pws):
+        # in the main thread: redirecting stdout / stderr is not thread-safe
+        matrix = []
+        for kf in keys:
+            row = []
+            for pw in pws:
+                try:
+                    run_async(lambda: Repository(Local(str(d / 'repo')), concurrent=1, cache_directory=None).unlock(password=pw, key=kf.read_bytes()))
+                    row.append(True)
+                except BaseException as e:  # noqa
+                    if isinstance(e, (KeyboardInterrupt, SystemExit, MemoryError)):
+                        raise
+                    row.append(False)
+            matrix.append(row)
+        return matrix
+    with ThreadPoolExecutor(max_workers=len(chains)) as ex:     # only the child processes run in parallel
+        results = list(ex.map(one, range(len(chains))))
+    for ops, log, pws, made, failure in results:
+        matrix = None if failure else unlock_matrix(made[0], made[1], pws)
+        case = {'component': 'cli-chain', 'ops': [list(o) for o in ops], 'commands': log}
+        rep.case(case, nontrivial=True)
+        rep.count('cli-chain:chains')
+        if failure:
+            rep.violations.append({'what': f'add-key chain {ops} through the command line: {failure}', 'signature': {'kind': 'cli_chain_failed'}, 'replay': case})
+            continue
+        for i in range(len(pws)):
+            for j in range(len(pws)):
+                if matrix[i][j] != (pws[i] == pws[j]):
+                    rep.violations.append({'what': f'add-key chain {ops} through the command line ({[" ".join(c[:3]) for c in log]}): key {i} '
+                                                   + (f'opens with the password of key {j} ({pws[j]!r}), not its own' if matrix[i][j] else f'does not open with its own password {pws[i]!r}'),
+                                           'signature': {'kind': 'foreign_password_unlocks' if matrix[i][j] else 'own_password_fails', 'via': 'cli'}, 'replay': case})
+                    break
+            else:
+                continue
+            break
 
 
 # --------------------------------------------------------------------------- rejected calls leave everything as it was
@@ -1383,6 +1463,7 @@ def run(ctx) -> Report:
     guard('long_password_probe', long_password_probe, rep, ctx)
     guard('key_file_probe', key_file_probe, rep, ctx)
     guard('rejected_output_probe', rejected_output_probe, rep, ctx)
+    guard('cli_chain_probe', cli_chain_probe, rep, ctx)
     guard('reinit_probe', reinit_probe, rep, ctx, ctx.scale(4, 40))
     guard('oversize_probe', oversize_probe, rep, ctx)
     guard('near_miss_probe', trailing_nul_probe, rep, ctx)
@@ -1409,8 +1490,8 @@ def search(ctx, broken) -> Report:
 def replay(ctx, obj):
     rep = Report(rule=RULE)
     case = obj.get('replay') or {}
-    if case.get('component') in ('key-file', 'reinit', 'oversize', 'trailing-nul', 'shared-cache', 'rejected-output'):
-        {'shared-cache': shared_cache_probe, 'rejected-output': rejected_output_probe, 'key-file': key_file_probe, 'reinit': lambda r, c: reinit_probe(r, c, 10), 'oversize': oversize_probe,
+    if case.get('component') in ('key-file', 'reinit', 'oversize', 'trailing-nul', 'shared-cache', 'rejected-output', 'cli-chain'):
+        {'shared-cache': shared_cache_probe, 'cli-chain': cli_chain_probe, 'rejected-output': rejected_output_probe, 'key-file': key_file_probe, 'reinit': lambda r, c: reinit_probe(r, c, 10), 'oversize': oversize_probe,
          'trailing-nul': trailing_nul_probe}[case['component']](rep, ctx)
         for v in rep.violations:
             print('VIOLATION-REPRODUCED', v['what'])
